@@ -219,6 +219,8 @@ fn main() {
         "e3shard" => e3::shard_main(&args[2..], &|prop, tier| match prop {
             "C14" => props::c14::bodies(tier),
             "C06" => props::c06::bodies(tier),
+            "C13" => props::c13::bodies(tier),
+            "C16" => props::c16::bodies(tier),
             "C01" => props::c01::bodies(tier),
             "C04" => props::c04::bodies(tier),
             "C07" => props::c07::bodies(tier),
